@@ -234,6 +234,17 @@ def rule_disp(ctx):
     locks = set(guards.values()) | {L2}
     ctx.check("C11.disp", st == "ok" and len(locks) == 1 and None not in locks, where(rel, "AsyncoreConnectionDispatcher.initiate_send", init_send.lineno), "initiate_send (loop thread) under the same lock",
               "the base initiate_send must run under the same lock as sendData's append (found %s vs %s)" % (L2, sorted(x for x in guards.values() if x)), "one lock: %s" % L2)
+    # a connection never inherits output of the previous one: the network layer creates a fresh dispatcher for every
+    # connection (the asyncore out_buffer survives close()), on a node that dominates the connect call
+    cc = repo.method(NET, "YowNetworkLayer", "createConnection")
+    g = CFG(cc)
+    mk = [n for n in g.live if n.kind == "stmt" and isinstance(n.stmt, ast.Assign) and unparse(n.stmt.targets[0]) == "self._dispatcher"
+          and any(isinstance(x, ast.Call) and "create_dispatcher" in unparse(x.func) for x in ast.walk(n.stmt.value))]
+    conn = [n for n in g.live if n.stmt is not None and n.kind == "stmt" and any(isinstance(x, ast.Call) and unparse(x.func) == "self._dispatcher.connect" for x in ast.walk(n.stmt))]
+    okd = len(mk) == 1 and len(conn) == 1 and g.dominates(mk[0], conn[0])
+    ctx.check("C11.disp", okd, where(NET, "YowNetworkLayer.createConnection", cc.lineno), conn[0].stmt if conn else cc,
+              "the dispatcher is not created afresh on every path to connect(): a reused dispatcher still holds the unsent tail of the last frame of the previous connection, which then precedes the prologue on the new one",
+              "a new dispatcher for every connection")
     # the lock is per instance and re-entrant (sendData calls initiate_send while holding it)
     from ..state import bound_in_init
     b = bound_in_init(repo, d)
